@@ -112,9 +112,11 @@ impl Workspace {
   /// Removes a definition from workspace, deletes all model evaluators,
   /// switches a workspace to state `STASHING`.
   pub fn remove(&mut self, namespace: &str, name: &str) {
-    self.definitions_by_namespace.remove(namespace);
-    self.definitions_by_name.remove(name);
-    self.definitions.retain(|d| d.namespace() != namespace && d.name() != name);
+    if let Some(position) = self.definitions.iter().position(|d| d.namespace() == namespace && d.name() == name) {
+      self.definitions.remove(position);
+      self.definitions_by_namespace.remove(namespace);
+      self.definitions_by_name.remove(name);
+    }
     self.clear_model_evaluators();
   }
   /// Replaces a definition in workspace, deletes all model evaluators,
